@@ -4,10 +4,12 @@ import EventppVerif.Util.WrappersAux
 
   Model (Util/Wrappers.lean): the wrappers are behaviour transformers `counterBeh w n inner` /
   `condBeh w cond inner` for the callback-list machines of CL/Machine.lean: callback id `w` is the
-  wrapped listener, `inner` is what the wrapped listener and every other callback do.  The test of
-  the counter wrapper (`--triggerCount <= 0`: value tested, comparison, threshold) is the
-  regenerated `Gen.Remover.due` / `testsAfterDecrement`; the proofs unfold them, so they are
-  re-checked when the source changes.  The count is a 32-bit `int` (`dec32` wraps at `INT_MIN`).
+  wrapped listener, `inner` is what the wrapped listener and every other callback do.  What one
+  call of the counter wrapper does (`if(triggerCount <= 1) remove; else --triggerCount;`: the test,
+  its threshold, and the decrement of the stored count) is the regenerated `Gen.Remover.call`; the
+  proofs unfold it (`call_eq`, `call_not_due` in Util/WrappersAux.lean), so they are re-checked
+  when the source changes.  The count is a 32-bit `int` (`dec32` wraps at `INT_MIN`, but is only
+  ever applied to a count `> 1`: `C16_no_overflow`).
 
   The machine theorems are about the Spec machine `SCfg` (an invocation iterates over a snapshot
   and skips entries that are no longer present); the pointer-level Model `MCfg` produces the same
@@ -26,33 +28,40 @@ open Evp Evp.Gen.Remover
 
 /-! ### the test -/
 
-/-- **C16 (which call finds the test true).** For every trigger count `n` and every 0-based call
-    number `k` such that `k + 1` decrements of `n` do not pass `INT_MIN` (`k + 1 ≤ n - INT_MIN`;
-    this needs `INT_MIN < n` and covers every `k + 1 ≤ max(n,1)`, and in fact the first
-    `n + 2^31` calls): the regenerated test is true on call `k` iff `k + 1 ≥ max(n,1)` — the first
-    call that finds it true is call number `max(n,1)` (1-based), and every later call would too. -/
-theorem C16_due_iff (n : Int) (k : Nat) (hk : (k : Int) + 1 ≤ n - intMin) :
+/-- **C16 (which call finds the test true).** For every trigger count `n` (every integer, hence
+    every 32-bit `int` including `INT_MIN`) and every 0-based call number `k`: the regenerated
+    wrapper finds the removal due on call `k` iff `k + 1 ≥ max(n,1)` — the first call that finds it
+    due is call number `max(n,1)` (1-based), and every later call would too (the count stays
+    `n - k` while that is `> 1`; once it is `≤ 1` it is never decremented again). -/
+theorem C16_due_iff (n : Int) (k : Nat) :
     counterDue n k = true ↔ (k + 1 : Int) ≥ max n 1 :=
-  counterDue_iff n k hk
+  counterDue_iff n k
 
-/-- the same, in the form used below: for `INT_MIN < n`, every call before number `max(n,1)` finds
-    the test false and call number `max(n,1)` finds it true. -/
-theorem C16_due_first (n : Int) (hn : intMin < n) (k : Nat) :
+/-- the same, in the form used below: every call before number `max(n,1)` finds the test false and
+    call number `max(n,1)` finds it true. -/
+theorem C16_due_first (n : Int) (k : Nat) :
     (k + 1 < (max n 1).toNat → counterDue n k = false) ∧
     (k + 1 = (max n 1).toNat → counterDue n k = true) :=
-  counterDue_first hn k
+  counterDue_first n k
 
-/-- **Known defect, kept as a theorem.** With trigger count `INT_MIN` the first decrement wraps
-    (undefined behaviour in the source; two's-complement wrap in the model): the test is false on
-    each of the first `2^31 - 1` calls, so the listener is *not* removed on its first trigger
-    although `max(n,1) = 1`. -/
-theorem C16_counterexample_intmin :
-    counterDue intMin 0 = false ∧ (max intMin 1 = 1) ∧
-    (∀ k : Nat, (k : Int) < intMax → counterDue intMin k = false) :=
-  ⟨by decide, by decide, counterDue_intMin⟩
+/-- a listener added with trigger count `INT_MIN` is removed on its first trigger, as
+    `max(n,1) = 1` promises (the former `--triggerCount <= 0` overflowed here). -/
+theorem C16_intmin_ok : counterDue intMin 0 = true ∧ max intMin 1 = 1 :=
+  ⟨by decide, by decide⟩
 
-/-- the same for the first calls, by evaluation of the regenerated test -/
-theorem C16_counterexample_intmin_small : ∀ k < 6, counterDue intMin k = false := by decide
+/-- **C16 (no overflow).** Along the calls of one wrapper, a call that does not find the removal
+    due — the only kind of call that decrements — has a stored count `> 1`: `dec32` is never
+    applied to `INT_MIN`, and the decrement is the true subtraction. -/
+theorem C16_no_overflow (n : Int) (k : Nat) (h : (call (countAfter k n)).1 = false) :
+    countAfter k n > 1 ∧ countAfter k n ≠ intMin ∧ countAfter (k + 1) n = countAfter k n - 1 :=
+  counter_no_overflow n k h
+
+/-- the stored count in closed form (a count `≤ 1` is never changed; a count `n > 1` is `n - k`
+    while that is `> 1` and stays `1` afterwards), and it stays a 32-bit `int`. -/
+theorem C16_count (n : Int) (k : Nat) :
+    countAfter k n = (if n ≤ 1 then n else max (n - k) 1) ∧
+    (intMin ≤ n ∧ n ≤ intMax → intMin ≤ countAfter k n ∧ countAfter k n ≤ intMax) :=
+  ⟨countAfter_eq k n, countAfter_range k⟩
 
 /-! ### the wrapper's program -/
 
@@ -70,15 +79,15 @@ theorem C16_wrapper_calls_inner (w : Cb) (n : Int) (cond : Nat → Bool) (inner 
       then .op (.remove call.list call.h) (fun _ => inner call nth) else inner call nth) :=
   ⟨rfl, rfl⟩
 
-/-- hence, for `INT_MIN < n` and an invocation of `w` that is call number `nth + 1`: before call
+/-- hence, for every `n` and an invocation of `w` that is call number `nth + 1`: before call
     number `max(n,1)` the wrapper does nothing but run the listener; on call number `max(n,1)` it
     first removes its own handle. -/
-theorem C16_counter_program (w : Cb) (n : Int) (hn : intMin < n) (inner : Beh) (call : Call) (nth : Nat)
+theorem C16_counter_program (w : Cb) (n : Int) (inner : Beh) (call : Call) (nth : Nat)
     (hcb : call.cb = w) (hen : call.enum = false) :
     (nth + 1 < (max n 1).toNat → counterBeh w n inner call nth = inner call nth) ∧
     (nth + 1 = (max n 1).toNat →
       counterBeh w n inner call nth = .op (.remove call.list call.h) (fun _ => inner call nth)) :=
-  counter_program hn inner call nth hcb hen
+  counter_program n inner call nth hcb hen
 
 /-- for the conditional wrapper and an invocation of `w`: the call whose condition holds starts
     with the self-removal, a call whose condition does not hold is just the listener. -/
@@ -91,8 +100,8 @@ theorem C16_cond_program (w : Cb) (cond : Nat → Bool) (inner : Beh) (call : Ca
 
 /-- the regenerated facts about the order in the source: removal (when due) before the call of the
     wrapped listener, one evaluation of the condition per call -/
-theorem C16_generated_flags : removeBeforeCall = true ∧ condEvaluatedOnce = true ∧ testsAfterDecrement = true :=
-  ⟨rfl, rfl, rfl⟩
+theorem C16_generated_flags : removeBeforeCall = true ∧ condEvaluatedOnce = true :=
+  ⟨rfl, rfl⟩
 
 /-! ### a removed listener is never called -/
 
@@ -133,7 +142,7 @@ theorem C16_self_removal_effective (w lw hw : Nat) (c : SCfg) (busy : Nat → Bo
 /-! ### the global statements -/
 
 /-- **C16 (CounterRemover: at most `max(n,1)` calls, then detached).**
-    For every trigger count `n > INT_MIN`, every behaviour `inner` of the wrapped listener and of
+    For every trigger count `n` (`INT_MIN` included), every behaviour `inner` of the wrapped listener and of
     all other callbacks with `Clean w lw` programs, every start configuration `c0` in which
     callback `w` is registered at most as entry `⟨hw, w⟩` of list `lw` (and `hw` is an issued handle
     used by no other entry), no traversal is running (the stack is one `Clean` program `p`) and `w`
@@ -143,7 +152,7 @@ theorem C16_self_removal_effective (w lw hw : Nat) (c : SCfg) (busy : Nat → Bo
     wrapper's program about to execute `remove lw hw` (the one-step window between the recording of
     call number `max(n,1)` and the removal).  By `C16_removed_never_called` it is then never called
     again, whatever the other listeners do and however deeply invocations are nested. -/
-theorem C16_counter_bound (w lw hw : Nat) (n : Int) (hn : intMin < n) (inner : Beh)
+theorem C16_counter_bound (w lw hw : Nat) (n : Int) (inner : Beh)
     (hin : ∀ call nth, Clean w lw (inner call nth)) (c0 : SCfg) (p : Prog)
     (hstack : c0.stack = [.prog p]) (hp : Clean w lw p) (hfresh : hw < c0.nextId)
     (hent : ∀ l e, e ∈ c0.lists l → (e.cb = w ∨ e.id = hw) → e.cb = w ∧ e.id = hw ∧ l = lw)
@@ -152,19 +161,19 @@ theorem C16_counter_bound (w lw hw : Nat) (n : Int) (hn : intMin < n) (inner : B
     (countCalls (SCfg.runN (counterBeh w n inner) k c0).1.trace w = (max n 1).toNat →
       ((SCfg.runN (counterBeh w n inner) k c0).1.lists lw).present hw = false ∨
       AboutToRemove lw hw (SCfg.runN (counterBeh w n inner) k c0).1.stack) :=
-  counter_bound hn hin hstack hp hfresh hent hcount k
+  counter_bound n hin hstack hp hfresh hent hcount k
 
 /-- the bound on the pointer-level Model: for a Model configuration related to `c0` by the C02
     simulation and a run without generation-counter wrap (C19), the Model's trace has at most
     `max(n,1)` calls of the wrapped listener. -/
-theorem C16_counter_bound_model (w lw hw : Nat) (n : Int) (hn : intMin < n) (inner : Beh)
+theorem C16_counter_bound_model (w lw hw : Nat) (n : Int) (inner : Beh)
     (hin : ∀ call nth, Clean w lw (inner call nth)) (c0 : SCfg) (p : Prog)
     (hstack : c0.stack = [.prog p]) (hp : Clean w lw p) (hfresh : hw < c0.nextId)
     (hent : ∀ l e, e ∈ c0.lists l → (e.cb = w ∨ e.id = hw) → e.cb = w ∧ e.id = hw ∧ l = lw)
     (hcount : countCalls c0.trace w = 0) (k : Nat) (m0 : MCfg) (hsim : Sim m0 c0)
     (nowrap : (MCfg.runN (counterBeh w n inner) k m0).1.wraps = m0.wraps) :
     countCalls (MCfg.runN (counterBeh w n inner) k m0).1.trace w ≤ (max n 1).toNat :=
-  counter_bound_model hn hin hstack hp hfresh hent hcount k hsim nowrap
+  counter_bound_model n hin hstack hp hfresh hent hcount k hsim nowrap
 
 /-- **C16 (ConditionalRemover: called up to and including the first trigger whose condition
     holds).**  Same quantification as `C16_counter_bound`, for every condition `cond`.  After every
@@ -196,6 +205,14 @@ example :
     (SCfg.runN (counterBeh 1 2 innerPlain) 100 { stack := [.prog (withTwo (invokes [0, 0, 0, 0]))] }).2 = true := by
   decide +kernel
 
+/-- Trigger count `INT_MIN`: the counted listener (callback 1), invoked three times, is called
+    exactly once (`max(n,1) = 1`). -/
+example :
+    calls (SCfg.runN (counterBeh 1 intMin innerPlain) 100 { stack := [.prog (withTwo (invokes [0, 0, 0]))] }).1.trace
+      = [(1, 0), (2, 0), (2, 0), (2, 0)] ∧
+    (SCfg.runN (counterBeh 1 intMin innerPlain) 100 { stack := [.prog (withTwo (invokes [0, 0, 0]))] }).2 = true := by
+  decide +kernel
+
 /-- Nested: the counted listener (n = 2) re-invokes its list from inside; it is called twice in
     total (the second time from inside the first), callback 2 at every nesting level. -/
 example :
@@ -217,7 +234,13 @@ example :
     twice. -/
 example (args : List Nat) (k : Nat) :
     countCalls (SCfg.runN (counterBeh 1 2 innerNested) k (twoCfg args)).1.trace 1 ≤ 2 :=
-  (C16_counter_bound 1 0 0 2 (by decide) innerNested innerNested_clean (twoCfg args) _ rfl
+  (C16_counter_bound 1 0 0 2 innerNested innerNested_clean (twoCfg args) _ rfl
+    (invokes_clean 1 0 args) (by show (0 : Nat) < 2; decide) (twoCfg_ent args) rfl k).1
+
+/-- the same with trigger count `INT_MIN`: at most one call. -/
+example (args : List Nat) (k : Nat) :
+    countCalls (SCfg.runN (counterBeh 1 intMin innerNested) k (twoCfg args)).1.trace 1 ≤ 1 :=
+  (C16_counter_bound 1 0 0 intMin innerNested innerNested_clean (twoCfg args) _ rfl
     (invokes_clean 1 0 args) (by show (0 : Nat) < 2; decide) (twoCfg_ent args) rfl k).1
 
 end Evp.Wrap
